@@ -150,6 +150,20 @@ def eval_expr(e: ast.expr, env: dict[str, Any], oracle: Oracle | None = None) ->
                 return getattr(recv, e.func.attr)(eval_expr(e.args[0], env, oracle))
             except ValueError:
                 raise Raised(ast.Raise(exc=ast.Name(id="ValueError", ctx=ast.Load()), cause=None))
+    if isinstance(e, ast.Call) and isinstance(e.func, ast.Attribute) and e.func.attr in ("encode", "decode") and len(e.args) == 1 and not e.keywords:
+        try:
+            recv = eval_expr(e.func.value, env, oracle)
+        except AnalysisError:
+            recv = AnalysisError
+        if isinstance(recv, (str, bytes)):
+            try:
+                return getattr(recv, e.func.attr)(eval_expr(e.args[0], env, oracle))
+            except (UnicodeError, LookupError, TypeError) as ex:
+                raise Raised(ast.Raise(exc=ast.Name(id=type(ex).__name__, ctx=ast.Load()), cause=None))
+    if isinstance(e, ast.Call) and isinstance(e.func, ast.Attribute) and e.func.attr in ("encode",) and not e.args and not e.keywords:
+        recv = eval_expr(e.func.value, env, oracle)
+        if isinstance(recv, str):
+            return recv.encode()
     if isinstance(e, ast.Call) and isinstance(e.func, ast.Attribute) and e.func.attr in ("decode", "hex", "upper", "lower") and not e.args and not e.keywords:
         recv = eval_expr(e.func.value, env, oracle)
         if isinstance(recv, (str, bytes)):
